@@ -693,7 +693,8 @@ def check_mutation_table(ctx):
                                                              ', shared mutable default %s' % r['default'] if r['mutable_default'] else '')))
     if bad:
         # the obligation C18_pure_table is broken by these rows: name them next to it, whichever violation the replay leads with
-        ctx.broken('mutation-table', 'pure_table fails at: ' + '; '.join(
+        ctx.broken('mutation-table: ' + ', '.join('%s.%s(%s) line %d' % (r['module'], r['qualname'], r['param'], r['line']) for r in bad[:4]),
+                   'pure_table fails at: ' + '; '.join(
             '%s.%s(%s) %s line %d %s' % (r['module'], r['qualname'], r['param'], r['module'].replace('.', '/') + '.py', r['line'], r['kind'])
             for r in bad[:8]))
     index = {(r['module'], r['qualname'], r['param']): r for r in rows}
